@@ -73,7 +73,12 @@ CASE = {0: "p0", 1: "shared", 2: "Shared", 3: "SHARED", 4: "shareD"}     # direc
 INSIDE = {0: "p0", 1: "p0/sub1", 2: "p0/sub1/sub2", 3: "p0/sub3"}      # imported packages that live inside their importer's directory
 
 
+SPECIAL = {0: "p0", 1: "c#sharp", 2: "what?", 3: "100%", 4: "a b"}       # characters that mean something in a URL, not in a path
+
+
 def pkg_dir(i, layout):
+    if layout == "special":
+        return SPECIAL[i]
     if layout == "inside":
         return INSIDE[i]
     if layout == "case":
@@ -92,8 +97,8 @@ def files_for(n, imports, ns, absolute_root=None, with_json=False, layout=None):
         if imports[i]:
             pk += "imports:\n"
             for j in imports[i]:
-                if layout in ("nested", "case", "inside"):
-                    pk += "  - %s\n" % os.path.relpath(pkg_dir(j, layout), pkg_dir(i, layout))
+                if layout in ("nested", "case", "inside", "special"):
+                    pk += "  - %s\n" % json.dumps(os.path.relpath(pkg_dir(j, layout), pkg_dir(i, layout)))
                 elif absolute_root and (i + j) % 2 == 1:
                     pk += "  - %s/p%d\n" % (absolute_root, j)
                 else:
@@ -291,6 +296,12 @@ def main(tier):
                 continue
             k += 1
             configs.append((n, adj, tuple(range(n)), k % 25 == 0, "inside"))
+    for n in range(2, 5 if not quick else 4):
+        for adj in graphs(n):
+            if sum(len(a) for a in adj) > 4:
+                continue
+            k += 1
+            configs.append((n, adj, tuple(range(n)), k % 25 == 0, "special"))
     fam = depth_family(quick) + depth_family2(quick)
     for idx, (N, adj, kind) in enumerate(fam):
         configs.append((N, adj, tuple(range(N)), idx % (6 if quick else 15) == 0, False))
